@@ -36,6 +36,13 @@ def program_sources(seed, ngen, with_corpus=True, corpus_limit=None, ncasc=None)
     for i in range(ngen if ncasc is None else ncasc):
         text = genasm.render_program(genasm.gen_cascade_program(rng))
         out.append(("casc%d" % i, {"mode": "asm", "files": {"main.asm": text}, "roots": ["main.asm"]}))
+    # asm-block macros and user functions (an inner resolution loop inside one outer item)
+    for i in range(max(10, (ngen if ncasc is None else ncasc) // 4)):
+        out.append(("macro%d" % i, {"mode": "asm", "files": {"main.asm": genasm.render_macro_program(genasm.gen_macro_program(rng))},
+                                    "roots": ["main.asm"]}))
+    # top-level rule blocks that refer to themselves (operands of the block's own type, left and right recursive)
+    for i in range(max(4, (ngen if ncasc is None else ncasc) // 20)):
+        out.append(("selfref%d" % i, {"mode": "asm", "files": {"main.asm": selfref_program(rng)}, "roots": ["main.asm"]}))
     if with_corpus:
         cj = [(n, j) for n, j in corpus.corpus_jobs() if j["mode"] == "asm"]
         if corpus_limit is not None:
@@ -44,6 +51,21 @@ def program_sources(seed, ngen, with_corpus=True, corpus_limit=None, ncasc=None)
             cj = cj[:corpus_limit]
         out += cj
     return out
+
+
+def selfref_program(rng):
+    op = rng.choice(["+", "-", "*", ","])
+    shapes = ["{a: e} %s {b: e} => a @ b" % op, "{a: e} %s n{x: u8} => a @ x" % op, "n{x: u8} %s {b: e} => x @ b" % op,
+              "({a: e}) => a", "neg {a: e} => 0xff @ a"]
+    rng.shuffle(shapes)
+    rules = shapes[:rng.randrange(1, 4)] + ["n{x: u8} => x"]
+    rng.shuffle(rules)
+    leaves = ["n1", "n2", "n%d" % rng.randrange(0, 300), "(n3)", "neg n4", "nk"]
+    lines = []
+    for _ in range(rng.randrange(1, 5)):
+        k = rng.randrange(1, 4)
+        lines.append((" %s " % op).join(rng.choice(leaves) for _ in range(k)))
+    return "#ruledef e\n{\n" + "".join("    %s\n" % r for r in rules) + "}\nk = 5\n" + "\n".join(lines) + "\n"
 
 
 def with_opts(job, budget, opt_static=True, opt_matcher=True):
